@@ -162,12 +162,14 @@ class Verdict:
             mechanisms[mechanism] = mechanisms.get(mechanism, 0) + 1
         if mechanisms:
             print(f"{self.prop}: violation mechanisms {json.dumps(mechanisms, sort_keys=True)}"[:3000], flush=True)
-        verdict = "VIOLATED" if self.violations else "held on what was observed"
+        # a run whose deciding monitors were never reached (or that evaluated nothing) did not decide anything
+        undecided = not self.args.replay and (self.evaluations == 0 or any(self.counters.get(name, 0) == 0 for name in min_counters))
+        verdict = "VIOLATED" if self.violations else ("INCONCLUSIVE (deciding monitors not reached)" if undecided else "held on what was observed")
         print(f"{self.prop}: {verdict}; evaluations={self.evaluations} distinct_nontrivial={len(self.distinct)} "
               f"violations={len(self.violations)} known={sum(self.known_hits.values())} "
               f"inconclusive={sum(self.inconclusive.values())} wall={evidence['wall_s']}s", flush=True)
         print(f"{self.prop}: counters {json.dumps(self.counters, sort_keys=True)}"[:3000], flush=True)
-        return 1 if self.violations else 0
+        return 1 if self.violations else (2 if undecided else 0)
 
 
 def rng_for(args, *salt):
